@@ -987,7 +987,8 @@ class FVARs():
         return self.fvars[item].fvar_value
 
     def __setitem__(self, key, fvar_value):
-        self.fvars[key] = fvar_value
+        # Free variables are counted from one, as in __getitem__():
+        self.fvars[abs(key) - 1].fvar_value = fvar_value
 
     def __len__(self) -> int:
         return len(self.fvars)
